@@ -164,6 +164,12 @@ pub fn docs() -> Vec<MObj> {
     out.push(MObj::new().with("f", s("TRUE")).with("g", MVal::Bool(true)));
     out.push(MObj::new().with("f", s("true")).with("g", MVal::Bool(true)));
     out.push(MObj::new().with("f", MVal::Int(1)).with("g", s("1")));
+    // field names are never case-folded, in either build
+    for (k, v) in [("F", "a"), ("F", "A"), ("G", "x")] {
+        out.push(MObj::new().with(k, s(v)));
+    }
+    out.push(MObj::new().with("N", crate::mdoc::obj(vec![("x", s("a"))])));
+    out.push(MObj::new().with("n", crate::mdoc::obj(vec![("X", s("a"))])));
     out.push(MObj::new().with("f", MVal::Int(1)));
     out.push(MObj::new().with("f", MVal::Int(2)));
     out.push(MObj::new().with("f", MVal::Float(1.5)));
